@@ -27,7 +27,7 @@ PROPS = {
              "Proof (Verus, unbounded) on payment_lifecycle/resolve as extracted from src/htlc_manager.rs: every Resolve answer carries a key that is the preimage of a completed outgoing part of this hash or of its durable Succeeded record (hence preimage_of(hash)); the pay request carries the invoice and hash of this lifecycle.",
              LIFE_NOTE, assumptions=A_WORLD,
              not_covered=["CLN's own verification of the key", "SHA-256 itself (preimage_of is uninterpreted)"]),
-    "C02": P(["lifecycle"],
+    "C02": P(["lifecycle", "store"],
              "Proof (Verus, unbounded): at each of the ten resolve(..) call sites of payment_lifecycle a Fail answer requires !live(w) && !pay_running in the ghost world, starting from ANY world that satisfies only the durable invariant (every restart image), under the rely (every interleaving). Known finding F-C02-a (read error of the stored state) is reported per call site.",
              LIFE_NOTE, assumptions=A_WORLD,
              not_covered=["that CLN's pay is not still running after a plugin-only restart (not observable through the RPCs used)"]),
@@ -37,7 +37,7 @@ PROPS = {
     "C04": P(["lifecycle", "handle"],
              "Proof (Verus): at the pay call site max_cltv_delta <= max(0, min expiry of the HTLCs held at initiation - height returned by current_height() - cltv_delta) and <= policy delta; the arithmetic of src/htlc_manager.rs:576-583 is verified in place.",
              LIFE_NOTE, assumptions=A_WORLD),
-    "C05": P(["lifecycle"],
+    "C05": P(["lifecycle", "store"],
              "Proof (Verus): pay requires !live(w) && !pay_running; a Succeeded record is never followed by add_payment_attempt/pay; add_payment_attempt never overwrites a Succeeded record; the Free write of mark_failed is generation guarded (Released-phase rely).",
              LIFE_NOTE, assumptions=A_WORLD),
     "C06": P(["lifecycle", "fee", "paystate", "tlv_dec"],
@@ -48,10 +48,10 @@ PROPS = {
              "Proof (Verus, unbounded loop invariant): PaymentState::resolve gives every held listener exactly the one response and records it for late HTLCs; add_htlc never signals readiness once failure was requested; fail() is first-wins and only carries Fail; lifecycle resolves exactly once.",
              LIFE_NOTE + " oneshot::Sender::send is linear, so the prophecy `fate` is sound.", assumptions=A_WORLD,
              not_covered=["a rejecting HTLC arriving after readiness was signalled is by design ignored (statement says still-incomplete set)"]),
-    "C08": P(["lifecycle"],
+    "C08": P(["lifecycle", "store"],
              "Proof (Verus): durable invariant inv(w) (live or pay running => record Pending|Succeeded; Succeeded holds preimage_of(hash)) is preserved by every atomic step of payment_lifecycle: pay requires a durable Pending; mark_failed requires (generation still matches => nothing live); mark_succeeded requires the preimage of a completed part; rely steps preserve inv (lemma_rely_preserves_inv). Every prefix of every execution therefore satisfies inv.",
              LIFE_NOTE, assumptions=A_WORLD, not_covered=["durability of CLN's datastore itself"]),
-    "C09": P(["lifecycle"],
+    "C09": P(["lifecycle", "store"],
              "Proof (Verus) on the lifecycle side: started from any durable image, a Succeeded record is replayed; recovery writes are required to succeed absent faults by the store interface contract.",
              LIFE_NOTE, assumptions=A_WORLD, not_covered=["'eventually retried' is the sender's behaviour"]),
     "C11": P(["lifecycle"],
@@ -61,7 +61,7 @@ PROPS = {
              "Proof (Verus, unbounded): fee_sufficient as extracted from src/messages.rs satisfies the exact integer predicate of the statement for all u64 x u64 x u32 x u32 outside the region of known finding F-C12-a, never answers true when the exact predicate is false anywhere, and has no overflow/panic. One proof covers checked and wrapping builds because no overflow occurs.",
              "Trusted: " + TB_COMMON + " vstd specs of checked_mul/checked_add. Known finding F-C12-a (amount*ppm >= 2^64 answers false) is excluded by region and reported as KNOWN-FINDING.",
              assumptions=[]),
-    "C14": P(["lifecycle"],
+    "C14": P(["lifecycle", "store"],
              "Proof of the two mechanisms (Verus): no RPC / channel wait / timer is started while the table lock is held (every such env call requires !lock_held; lock scope by ghost unlock marker E7). The scheduling statement itself is not applicable.",
              LIFE_NOTE + " NOT APPLICABLE clause: 'a frozen RPC of A does not delay B' (liveness of tokio's scheduler).", assumptions=A_WORLD),
 }
@@ -83,5 +83,5 @@ PROPS["C18"] = P(["tlv_dec"],
     bounded=[])
 
 NOT_APPLICABLE = {}
-HOOK_COMMITS = ["a595cb4"]
+HOOK_COMMITS = ["a595cb4", "8d4e42a", "747697f", "d2148d0"]
 NOTES = "Contract-based deductive verification of the real code; see DESIGN.md. exit 2 = undecided (never a VIOLATION)."
